@@ -50,6 +50,7 @@ func main() {
 	var ls []lScript
 	var hs []string
 	var ss []string
+	var ts []string
 
 	if *in != "" {
 		data, err := os.ReadFile(*in)
@@ -79,6 +80,14 @@ func main() {
 					panic(err)
 				}
 				hs = append(hs, h.Scenario)
+			case "twoips":
+				var h struct {
+					Scenario string `json:"scenario"`
+				}
+				if err := json.Unmarshal([]byte(line), &h); err != nil {
+					panic(err)
+				}
+				ts = append(ts, h.Scenario)
 			case "sync":
 				var h struct {
 					Scenario string `json:"scenario"`
@@ -100,6 +109,7 @@ func main() {
 			hs = append(hs, hostScenarios...)
 			if ip6LoopbackWorks() {
 				hs = append(hs, "malformed_request_ip6", "blacklisted_ip6_long")
+				ts = append(ts, twoIPScenarios...)
 			}
 		}
 		if *doSync {
@@ -145,6 +155,14 @@ func main() {
 			hOut[i] = runHosts(hs[i])
 		}(i)
 	}
+	tOut := make([]tRec, len(ts))
+	for i := range ts {
+		wg.Add(1)
+		go func(i int) {
+			defer wg.Done()
+			tOut[i] = runTwoIPs(ts[i])
+		}(i)
+	}
 	sOut := make([]sRec, len(ss))
 	for i := range ss {
 		wg.Add(1)
@@ -155,6 +173,9 @@ func main() {
 	}
 	wg.Wait()
 	for _, rec := range hOut {
+		o.Put(rec)
+	}
+	for _, rec := range tOut {
 		o.Put(rec)
 	}
 	for _, rec := range sOut {
